@@ -16,7 +16,7 @@ RULE = ("the 14 existing Cvt*/Normalize* commands x arrays with >=2 distinct val
         "thresholds asc/desc/inside/outside the data range, defaults with both directions, category tables hitting/missing the data, "
         "curves with 1-6 control points in random order, z-score vectors, IgnoreZeros both ways; distinct by (command, dtype, rank, "
         "mask class, parameter-shape class)")
-REQUIRED_COUNTERS = ["large_rasters_converted", "tuple_parameter_cases", "ref_postconditions", "variant_checks", "inverse_checks", "monotone_checks", "numpy_scalar_parameter_cases", "written_results_read_back"]
+REQUIRED_COUNTERS = ["yes_no_spellings_from_a_file", "large_rasters_converted", "tuple_parameter_cases", "ref_postconditions", "variant_checks", "inverse_checks", "monotone_checks", "numpy_scalar_parameter_cases", "written_results_read_back"]
 ASSUMPTIONS = ["NormalizeZScore default thresholds, StartVal >= EndVal, equal thresholds, duplicate raw values, constant arrays and "
                "non-increasing mean-to-mid control points are don't-care (documentation silent or inconsistent)",
                "population standard deviation (ddof=0)", "float32 inputs compared with 2e-5 relative tolerance"]
@@ -223,6 +223,29 @@ def run_case(ctx, case):
         return
     if len(ctx.samples) < 5:
         ctx.sample({"cmd": cmd, "params": params, "input": arr.describe(inputs[0], 8), "result": arr.describe(res, 8)})
+    if "IgnoreZeros" in params and len(inputs[0].shape) == 1 and not numpy.ma.getmaskarray(inputs[0]).any() and inputs[0].dtype.kind in "if" and inputs[0].dtype.itemsize == 8:
+        # the same conversion from a command file, the yes / no parameter written the ways the manual allows
+        import os
+        from mpilot.program import Program
+        d_ = ctx.scratch()
+        with open(os.path.join(d_, "in.csv"), "w") as fh:
+            fh.write("v\n" + "\n".join(repr(x) for x in numpy.ma.getdata(inputs[0]).tolist()) + "\n")
+        k_ = len(case["inputs"][0]["data"]) + len(str(params))
+        spell = (["true", "True", "TRUE", "1", '"true"'] if params["IgnoreZeros"] else ["false", "False", "FALSE", "0", "'False'"])[k_ % 5]
+        other = ", ".join("%s = %s" % (a_, "[%s]" % ", ".join(repr(x) for x in v_) if isinstance(v_, list) else repr(v_)) for a_, v_ in params.items() if a_ != "IgnoreZeros")
+        text = 'R = EEMSRead(InFileName = "in.csv", InFieldName = v, DataType = %s)\nRes = %s(InFieldName = R, IgnoreZeros = %s, %s)' % ("Integer" if inputs[0].dtype.kind == "i" else "Float", cmd, spell, other)
+        ctx.count("yes_no_spellings_from_a_file")
+        try:
+            p_ = Program.from_source(text, working_dir=d_)
+            p_.run()
+            fres = p_.commands["Res"].result
+        except Exception as e:
+            ctx.fail("%s:from-a-command-file-raises-%s:IgnoreZeros-written-%s" % (cmd, type(e).__name__, spell.strip("\"'")), {"error": repr(e)[:200], "text": text})
+            return
+        bad = ref.compare(fres, want, scale=scale, rel=_tol(case))
+        if bad:
+            ctx.fail("%s:%s:from-a-command-file:IgnoreZeros-written-%s" % (cmd, bad[0], spell.strip("\"'")), {"cell": bad[1], "got": bad[2], "want": bad[3], "text": text})
+            return
     if len(inputs[0].shape) == 1 and inputs[0].size and (len(case["inputs"][0]["data"]) + len(params)) % 9 == 0 and not numpy.ma.getmaskarray(res).any():
         # the result as the CSV writer stores it next to an integer field listed first, read back
         import os
